@@ -248,3 +248,6 @@ func CopyTree(src, dst string, skip ...string) error {
 		}
 	})
 }
+
+// RemovePlzOut deletes <root>/plz-out.
+func RemovePlzOut(root string) { os.RemoveAll(filepath.Join(root, "plz-out")) }
